@@ -1,5 +1,8 @@
 """C10 - neighbourhood queries return exactly the metric ball clipped to the grid."""
 import itertools
+import math
+
+import numpy as np
 
 from hypothesis import strategies as st
 
@@ -9,10 +12,10 @@ from vf.engine import Violation, InvalidCase
 from vf.fixtures import check, expect_raises, wone_of
 
 PROPERTY = "C10"
-BUDGET = {"quick": 400, "thorough": 500}
+BUDGET = {"quick": 1500, "thorough": 4500}
 RULE = ("One case = (grid shape, centre cell, radius); for it all 2 neighbourhood kinds x incl_center x ret_type "
         "{int,tuple} x centre representation {cell id, tuple, PositionComponent exact, PositionComponent with fractional "
-        "in-cell offsets, a PositionComponent object re-used after moving from another cell, a namedtuple, an IntEnum id, a PositionComponent subclass} x entry point {specific method, get_neighbours(mode=)} are queried (128 calls) and compared with a "
+        "in-cell offsets, a PositionComponent object re-used after moving from another cell, a namedtuple, an IntEnum id, a PositionComponent subclass, a tuple of numpy integers, a PositionComponent holding numpy floats (radius then a numpy integer)} x entry point / call convention {specific method with positional arguments, get_neighbours(mode=) with keywords, specific method with only the non-default arguments by keyword} are queried (192 calls) and compared with a "
         "brute-force scan of all cells by Chebyshev/Manhattan distance in ascending cell order; the id form must be "
         "the row indices of the same cells in the world's position table. Also unknown mode -> KeyError, unknown "
         "ret_type / centre type -> TypeError. Non-trivial: ball clipped by a border, or radius >= 2, or non-cubic shape. "
@@ -65,12 +68,14 @@ def run_case(case):
     check(len(table) == ew * eh * ed and len(index) == len(table), "position-table", f"{case}: table has {len(table)} rows")
     cells = [(x, y, z) for z in range(ed) for y in range(eh) for x in range(ew)]
     centre = (cx, cy, cz)
-    fx, fy, fz = [(int(v) % 8) / 8.0 for v in case.get("frac", (3, 5, 7))]
+    # in-cell offsets: eighths, and offsets a hair below the next cell (int() truncation is the documented conversion)
+    NEAR_ONE = (1 - 2.0 ** -40, 0.9999999999, 1 - 2.0 ** -53, 0.999999)
+    fx, fy, fz = [((int(v) % 12) / 8.0 if int(v) % 12 < 8 else NEAR_ONE[int(v) % 12 - 8]) for v in case.get("frac", (3, 5, 7))]
     reprs = {
         "id": index[centre],
         "tuple": centre,
         "pos": PositionComponent(None, model, cx, cy, cz),
-        "posfrac": PositionComponent(None, model, cx + fx, cy + fy, cz + fz),
+        "posfrac": PositionComponent(None, model, *[(c + f if c + f < c + 1 else math.nextafter(c + 1, 0)) for c, f in ((cx, fx), (cy, fy), (cz, fz))]),
     }
     # a component object that is queried at ANOTHER cell first and then moves to the centre (agents move, their
     # PositionComponent object stays the same): the answer must follow the component's current value
@@ -80,6 +85,10 @@ def run_case(case):
     reprs["namedtuple"] = Point(cx, cy, cz)                                   # a tuple subclass
     reprs["intenum"] = enum.IntEnum("Cell", {"HERE": index[centre]}).HERE     # an int subclass
     reprs["pos-subclass"] = VelocityLike(None, model, cx, cy, cz)
+    # numpy numbers (coordinates read back from the cell table or computed with numpy): a tuple of numpy integers, a component
+    # holding numpy floats; the radius is then a numpy integer too
+    reprs["np-tuple"] = tuple(np.int64(v) for v in centre)
+    reprs["pos-np"] = PositionComponent(None, model, np.float64(cx + 0.5), np.float32(cy + 0.25), np.float64(cz))
     clipped = False
     for mode in ("moore", "neumann"):
         if mode == "moore":
@@ -94,7 +103,7 @@ def run_case(case):
             exp_t = [c for c in ball if incl or c != centre]
             exp_i = [index[c] for c in exp_t]
             for rname, rep in reprs.items():
-                for entry in ("specific", "generic"):
+                for entry in ("specific", "generic") + (("kw-minimal", "kw-one") if rname in ("tuple", "id") else ()):
                     for ret, exp in ((tuple, exp_t), (int, exp_i)):
                         if rname == "moved":
                             moving.x, moving.y, moving.z = prev
@@ -103,17 +112,30 @@ def run_case(case):
                             else:
                                 env.get_neighbours(moving, radius=r, incl_center=incl, ret_type=ret, mode=mode)
                             moving.x, moving.y, moving.z = centre
+                        r_arg = np.int64(r) if rname in ("np-tuple", "pos-np") else r
                         if entry == "specific":
                             fn = env.get_moore_neighbours if mode == "moore" else env.get_neumann_neighbours
-                            got = fn(rep, r, incl, ret)
+                            got = fn(rep, r_arg, incl, ret)
+                        elif entry in ("kw-minimal", "kw-one"):
+                            # other call conventions: only the arguments that differ from the documented defaults, by keyword
+                            # (kw-one: the radius is always spelt out, and comes last)
+                            fn = env.get_moore_neighbours if mode == "moore" else env.get_neumann_neighbours
+                            kw = {}
+                            if incl:
+                                kw["incl_center"] = True
+                            if ret is not int:
+                                kw["ret_type"] = ret
+                            if r != 1 or entry == "kw-one":
+                                kw["radius"] = r
+                            got = fn(rep, **kw)
                         else:
-                            got = env.get_neighbours(rep, radius=r, incl_center=incl, ret_type=ret, mode=mode)
+                            got = env.get_neighbours(rep, radius=r_arg, incl_center=incl, ret_type=ret, mode=mode)
                         if not isinstance(got, list) or [tuple(g) if ret is tuple else g for g in got] != exp:
                             clause = f"{mode}-{'ids' if ret is int else 'tuples'}"
                             raise Violation(clause, f"shape={kind}{(w, h, d)} centre={centre} given as {rname} r={r} incl={incl} "
                                                     f"entry={entry}: got {got}, expected {exp}")
                         if ret is int:
-                            back = [table[i] if isinstance(i, int) and 0 <= i < len(table) else None for i in got]
+                            back = [table[int(i)] if isinstance(i, (int, np.integer)) and 0 <= i < len(table) else None for i in got]
                             if back != exp_t:
                                 raise Violation("id-tuple-mismatch", f"shape={(w, h, d)} centre={centre} r={r}: ids {got} denote {back}, tuples are {exp_t}")
     # defaults: radius 1, no centre, ids
@@ -158,7 +180,7 @@ def strategy(tier):
             w, h, d = draw(ext(9)), draw(ext(7)), draw(ext(5))
         c = [draw(st.integers(0, max(w, 1) - 1)), draw(st.integers(0, max(h, 1) - 1)), draw(st.integers(0, max(d, 1) - 1))]
         r = draw(wone_of(st.integers(0, 3), st.integers(0, 12))) if max(w, h, d) < 60 else draw(st.sampled_from([3, 20, 33, 40, 80]))
-        frac = [draw(st.integers(0, 7)) for _ in range(3)]
+        frac = [draw(st.integers(0, 11)) for _ in range(3)]
         return {"kind": kind, "w": w, "h": h, "d": d, "c": c, "r": r, "frac": frac}
     return case()
 
@@ -171,7 +193,7 @@ def _cases(tier):
         ew, eh, ed = max(w, 1), max(h, 1), max(d, 1)
         for z, y, x in itertools.product(range(ed), range(eh), range(ew)):
             for r in range(0, max(w, h, d) + 3):
-                yield {"kind": kind, "w": w, "h": h, "d": d, "c": [x, y, z], "r": r, "frac": [(x + r) % 8, (y + 3) % 8, (z + 5) % 8]}
+                yield {"kind": kind, "w": w, "h": h, "d": d, "c": [x, y, z], "r": r, "frac": [(x + r) % 12, (y + 3) % 12, (z + 5) % 12]}
 
 
 def exhaustive(tier):
